@@ -209,7 +209,7 @@ class C37(dst.Check):
         trace_cfg = ['--cfg=smpi/wtime:0', '--cfg=tracing:yes', '--cfg=tracing/filename:trace.txt', '--cfg=tracing/smpi:yes',
                      '--cfg=tracing/smpi/format:TI', '--cfg=tracing/smpi/computing:yes', '--cfg=tracing/smpi/sleeping:yes']
         try:
-            rc, out, err, to = mc.run_smpi(sd, np, plan['plat'], plan['hosts'], plan['cfg'], text, timeout=60,
+            rc, out, err, to = mc.run_smpi(sd, np, plan['plat'], plan['hosts'], plan['cfg'], text, timeout=30,
                                            extra_cfg=trace_cfg)
             online = {}
             odates = [[] for _ in range(np)]
@@ -237,7 +237,7 @@ class C37(dst.Check):
                 # replay: same platform / hostfile / selector / thresholds; compute actions are executed
                 cmd_cfg = ['--cfg=smpi/replay:trace.txt', '--cfg=smpi/simulate-computation:yes',
                            '--log=smpi_replay.thres:verbose', '--log=smpi_replay.fmt:%i%e%.17r%e%m%n']
-                rc2, out2, err2, to2 = mc.run_smpi(sd, np, plan['plat'], plan['hosts'], plan['cfg'], text, timeout=60,
+                rc2, out2, err2, to2 = mc.run_smpi(sd, np, plan['plat'], plan['hosts'], plan['cfg'], text, timeout=30,
                                                    exe=mc.smpireplaymain(), prog_args=[], extra_cfg=cmd_cfg)
                 last = {}
                 final = None
